@@ -4,7 +4,8 @@
    (Sched/Persist.v: a registered slot holds its last value).  Not a single witness but every such connection. *)
 From Coq Require Import ZArith List Bool.
 Import ListNotations.
-From MV Require Import Time.Spec Static.Groups Static.Connect.
+From MV Require Import Time.Spec Static.Groups Static.Connect Static.Build Sched.Timing Sched.Plane.
+Open Scope Z_scope.
 
 Theorem initial_data_makes_an_event_slot_persistent gt sg dg f es :
   src_persistent f = false -> has_init f = true -> connect_one gt sg dg f = Accepted es -> In EInitPersist es.
@@ -20,3 +21,15 @@ Qed.
 Example f17_nonvacuous :
   exists es, connect_one [None] 0 0 (mkF true true true false false 1 false true true) = Accepted es /\ In EInitPersist es.
 Proof. eexists. split; [vm_compute; reflexivity|]. simpl. tauto. Qed.
+
+Theorem initial_data_is_per_connection_refuted :
+  let f := mkF true true true false true 1 false true true in
+  exists t, build [None] (fun _ => 0%nat) [mkConn 0 1 2 0 f false 7; mkConn 0 2 2 0 f false 9] = BOk t /\
+            t_cinit t = [(0%nat, [(-1, [(2%nat, 9)])])] /\
+            map fst (t_pull t) = [1%nat; 2%nat].
+Proof. eexists. split; [vm_compute; reflexivity|]. split; vm_compute; reflexivity. Qed.
+
+Theorem pulled_value_is_newest_by_time_refuted :
+  exists outs t, (forall e, In e outs -> fst e <= t) /\ In (3, [(2%nat, 30)]) outs /\ get_output_for outs t = [(2%nat, 10)].
+Proof. exists [(3, [(2%nat, 30)]); (1, [(2%nat, 10)])], 5. split; [|split; [left; reflexivity|vm_compute; reflexivity]].
+       intros e [<-|[<-|[]]]; simpl; discriminate. Qed.
